@@ -154,6 +154,9 @@ def run(R):
     # DISTINCT keeps a hash set of value tuples: "same tuple" is Value's Eq, found through Value's Hash - the two must agree
     from . import rules_c16
     rules_c16.float_key_agreement(R, "C08.keys")
+    # every admitted line reaches the DISTINCT test on its own: no memo of the previous line in front of it
+    from . import rules_c06
+    rules_c06.line_memo_rule(R, "C08.memo")
     P = R.prog
     global ADD
     _af = distinct_add_fn(P)
